@@ -102,4 +102,7 @@ package agent
 //@ requires !held(a.mu)
 //@ ensures [stopped-means-restartable] !a.started && !held(a.mu)
 //@ callreq Tick [interval] : arg0 == ite(a.UpdateInterval == 0, store.KeepaliveInterval, a.UpdateInterval)
+//@ callreq UpdatePeers [a-keep-alive-on-every-tick-of-the-configured-interval] : lastrecv() == lastTick && lastTick != 0
+//@        && lastTickEvery == ite(a.UpdateInterval == 0, store.KeepaliveInterval, a.UpdateInterval)
+//@ loop 0 invariant [one-ticker] ticker != nil && ref(ticker) == lastTick && lastTickEvery == interval && interval == ite(a.UpdateInterval == 0, store.KeepaliveInterval, a.UpdateInterval)
 //@ loop 0 invariant [lock] !held(a.mu)
